@@ -1,3 +1,42 @@
-import GV.Orch.Spec
+/-
+  C13 — DAG model: layers are barriers, unknown names skipped, failure stops the rest.
+-/
+import GV.Orch.AllConform
+import GV.Orch.Sched
 namespace GV.Props.C13
+open GV.Orch GV.Generated.Orch
+
+theorem C13_ExecuteDAGModel : Conforms ExecuteDAGModel .ExecuteDAGModel := All.conf_ExecuteDAGModel
+
+/-- Layers are barriers, under every interleaving inside a layer. -/
+theorem C13_layers {stages : List (List Name)} {s : Sched.LSt} (h : Sched.Reach stages s)
+    (hfin : s.idx = stages.length) : ∃ segs, s.hist = segs.flatten ∧ Sched.SegsOk stages segs :=
+  Sched.barrier h hfin
+
+/-- Each named existing rule of a layer runs once per occurrence; unknown names are skipped. -/
+theorem layer_rules (cfg : Cfg) (layer : List Name) (rest : List (List Name)) :
+    ∃ tail, dagFamily cfg (layer :: rest) = parStage (layer.filterMap (lookupRule cfg.entities)) ++ tail := by
+  unfold dagFamily
+  simp only []
+  split
+  · exact ⟨[], by simp⟩
+  · exact ⟨_, rfl⟩
+
+/-- If any rule of a layer fails no later layer starts. -/
+theorem failure_stops (cfg : Cfg) (layer : List Name) (rest : List (List Name))
+    (h : (layer.filterMap (lookupRule cfg.entities)).any (fails cfg) = true) :
+    dagFamily cfg (layer :: rest) = parStage (layer.filterMap (lookupRule cfg.entities)) := by
+  simp [dagFamily, h]
+
+theorem no_failure_continues (cfg : Cfg) (layer : List Name) (rest : List (List Name))
+    (h : (layer.filterMap (lookupRule cfg.entities)).any (fails cfg) = false) :
+    dagFamily cfg (layer :: rest) =
+      parStage (layer.filterMap (lookupRule cfg.entities)) ++ dagFamily cfg rest := by
+  simp [dagFamily, h]
+
+/-- The call returns an error iff some executed rule failed. -/
+theorem err_iff (cfg : Cfg) (hrb : cfg.rbNil = false) :
+    (expect .ExecuteDAGModel cfg).err = (dagFamily cfg cfg.dag).flatten.any (fails cfg) := by
+  simp [expect, spec, hrb]
+
 end GV.Props.C13
